@@ -278,7 +278,7 @@ func randomPhase(c *Ctx, mode string) []wstep {
 func runC03(c *Ctx) {
 	n := 6
 	if !c.Quick() {
-		n = 120
+		n = 600
 	}
 	periods := []time.Duration{2 * time.Second, 7 * time.Second}
 	filts := []*Filt{nil, {Tag: FLabels, Map: Map{{1, 1}}}, {Tag: FNot, Children: []*Filt{{Tag: FNSName, IDs: []ID2{{1, 1}}}}}}
@@ -325,7 +325,7 @@ func runC03(c *Ctx) {
 	// stale buffered watch events at a relist
 	nst := 12
 	if !c.Quick() {
-		nst = 100
+		nst = 400
 	}
 	for i := 0; i < nst; i++ {
 		problems, dl, chk, lists := staleBufferRun(c, c.Seed*7+int64(i), i%2)
